@@ -351,7 +351,7 @@ def plan(tier, seed):
     for i in range(4 if tier == "quick" else 16):
         specs.append({"mode": "formulas", "seed": f"{seed}:C13:F:{i}", "n": 800 if tier == "quick" else 8000})
     for i in range(4 if tier == "quick" else 16):
-        specs.append({"mode": "e2e", "seed": f"{seed}:C13:E:{i}", "n": 40 if tier == "quick" else 400})
+        specs.append({"mode": "e2e", "seed": f"{seed}:C13:E:{i}", "n": 40 if tier == "quick" else 1500})
     return specs
 
 
